@@ -48,12 +48,15 @@ class ModSpec:
         self.funcs = {}         # public function defs name -> int (returns)
         self.private = []
         self.deps = []          # names of required modules (in order)
+        self.cls = None         # name of a class defined in the module
 
     def public_names(self):
         names = set(self.values) | set(self.funcs) | {
             "bump", "peek", "probe", "pv", "setpv", "getpv"}
         for d in self.deps:
             names.add("via_" + d)
+        if self.cls and not self.cls.startswith("_"):
+            names.add(self.cls)     # the class, not its members
         return names
 
     def source(self):
@@ -67,6 +70,10 @@ class ModSpec:
             lines.append(f"def {n} = {v};")
         for n, v in self.funcs.items():
             lines.append(f"def {n}() {v};")
+        if self.cls:
+            lines.append(f"def class {self.cls} do def member_fn(self) 1; "
+                         f"def member_val = 2; def _init_(self) do "
+                         f"self->made = TRUE end end;")
         lines.append("def bump() do _state += 1; _state end;")
         lines.append("def peek() _state;")
         lines.append("def probe() importer_var;")
@@ -88,6 +95,8 @@ def gen_graph(ch):
                 m.values[p] = ch.int(0, 99)
             else:
                 m.funcs[p] = ch.int(100, 199)
+        if ch.bool(0.3):
+            m.cls = "Kls" if ch.bool(0.8) else "_Kls"
         if ch.bool(0.25):
             # a public definition with the module's own name
             m.values[m.name] = ch.int(0, 99)
@@ -474,7 +483,8 @@ def gen_steps(ch, mods):
 def encode(mods, cycle, steps, use_path):
     return {
         "mods": [{"name": m.name, "values": m.values, "funcs": m.funcs,
-                  "private": m.private, "deps": m.deps} for m in mods],
+                  "private": m.private, "deps": m.deps, "cls": m.cls}
+                 for m in mods],
         "cycle": sorted(cycle),
         "steps": [list(s[:2]) + ([s[2]] if len(s) > 2 else [])
                   for s in steps],
@@ -488,6 +498,7 @@ def prop(case):
         m = ModSpec(d["name"])
         m.values, m.funcs = dict(d["values"]), dict(d["funcs"])
         m.private, m.deps = list(d["private"]), list(d["deps"])
+        m.cls = d.get("cls")
         mods.append(m)
     steps = []
     for s in case["steps"]:
